@@ -345,6 +345,8 @@ class Types:
                 return self.note(ct, self.cfg.get('type_kinds', {}).get(ct, 'handle'))
         if re.match(r'^[\w:<>, \*&]+ \((\*|&)\)\(.*\)$', t) or (re.match(r'^[\w:<>, \*&]+ \(.*\)$', t) and not t.startswith('decltype')):
             return self.note('function_t', 'handle')     # function type / pointer / reference: an identity
+        if 'unnamed enum at /usr/' in t:
+            return self.note('int', 'scalar')
         if re.match(r'^(const )?char ?\[\d*\]$', t) or t in ('char *', 'const char *', 'char *const', 'const char *const'):
             return self.note('str_t', 'handle')      # C strings: interned like std::string
         if t in SCALARS:
@@ -783,6 +785,9 @@ class FnEmitter:
         rk = r['kind']
         name = r.get('name', '')
         if rk == 'EnumConstantDecl':
+            tt = (r.get('type') or {}).get('qualType', '')
+            if 'unnamed enum at /usr/' in tt or '(unnamed at /usr/' in tt:
+                return 'SYS__%s' % name           # constant of an anonymous system enum (DT_REG ...): supplied by the unit's prelude
             ct = self.ty.ctype_of(r.get('type'))
             return '%s__%s' % (ct, name)
         if rk in ('VarDecl', 'ParmVarDecl', 'BindingDecl'):
@@ -1406,6 +1411,11 @@ class FnEmitter:
             if cal.get('kind') == 'MemberExpr' and cal.get('name') in ('c_str', 'data') and self.ct(kids(cal)[0]) == 'str_t':
                 # s.c_str()[i]: the i-th character, i == size() being the terminator
                 return 'str_t__char_at(%s, %s)' % (self.expr(kids(cal)[0]), self.expr(b))
+        try:
+            if self.ct(a) == 'str_t':
+                return 'str_t__char_at(%s, %s)' % (self.expr(a), self.expr(b))      # character of a char-array member
+        except Unsupported:
+            pass
         return '%s[%s]' % (self.expr(a), self.expr(b))
 
     def e_CXXStdInitializerListExpr(self, n):
@@ -1819,6 +1829,31 @@ class FnEmitter:
     def s_WhileStmt(self, n):
         ks = kids(n)
         cond, body = ks[0], ks[-1]
+        if len(ks) == 3 and ks[0].get('kind') == 'DeclStmt':
+            # while (T x = init) body   ==   while (1) { T x = init; if (!x) break; body }   (continue re-evaluates the declaration)
+            decl, cond = ks[0], ks[1]
+            lm = self.loop_macro()
+            self.w('while (1)')
+            self.w(lm)
+            self.loop_scope.append(self.scope_depth)
+            self.w('{')
+            self.ind += 1
+            self.open_scope()
+            self.stmt(decl)
+            self.w('if (!(%s)) break;' % self.expr(cond))
+            if body['kind'] == 'CompoundStmt':
+                bs = kids(body)
+                for c in bs:
+                    self.stmt(c)
+                last = bs[-1]['kind'] if bs else None
+            else:
+                self.stmt(body)
+                last = body['kind']
+            self.close_scope(fallthrough=last not in ('ReturnStmt', 'BreakStmt', 'ContinueStmt'))
+            self.ind -= 1
+            self.w('}')
+            self.loop_scope.pop()
+            return
         if len(ks) != 2:
             self.unsupported(n, 'while with condition variable')
         lm = self.loop_macro()
